@@ -40,7 +40,7 @@ TYPES = [
     ('sh', 'short', 2, 's', 1, 'int'), ('us', 'unsigned short', 2, 'u', 0, 'int'),
     ('in', 'int', 4, 's', 1, 'int'), ('ui', 'unsigned int', 4, 'u', 0, 'int'),
     ('lo', 'long', 8, 's', 1, 'int'), ('ul', 'unsigned long', 8, 'u', 0, 'int'),
-    ('bo', '_Bool', 1, 'u', 0, 'bool'), ('pt', 'int *', 8, 'u', 0, 'ptr'),
+    ('bo', '_Bool', 1, 's', 0, 'bool'), ('pt', 'int *', 8, 'u', 0, 'ptr'),
     ('fl', 'float', 4, 'f', 0, 'flo'), ('db', 'double', 8, 'f', 0, 'flo'),
 ]
 TY = {t[0]: t for t in TYPES}
@@ -249,6 +249,16 @@ def tie_source(tag):
 def check_function(ctx, tag, name, kind, ro, lines):
     """returns None or a description of the difference between model sequence and emitted lines"""
     _, cty, nbytes, k, sg, cls = TY[tag]
+    if cls == 'bool':
+        # every value stored into a _Bool is first converted (`cmp $0, %eax; setne %al; movzx %al, %eax`): a private
+        # conversion (property C01), not part of the atomic sequence
+        flt, i = [], 0
+        while i < len(lines):
+            if lines[i:i + 3] == ['cmp $0, %eax', 'setne %al', 'movzx %al, %eax']:
+                i += 3
+            else:
+                flt.append(lines[i]); i += 1
+        lines = flt
     ncas = [i for i, l in enumerate(lines) if l.startswith('lock cmpxchg')]
     nx = [i for i, l in enumerate(lines) if l.startswith('xchg ')]
     if any(l.startswith('lock') and not l.startswith('lock cmpxchg') for l in lines):
@@ -267,10 +277,11 @@ def check_function(ctx, tag, name, kind, ro, lines):
         if len(nx) != 1 or ncas:
             return f'{len(nx)} xchg / {len(ncas)} lock cmpxchg in a function with one exchange'
         model = model_seq(ctx, f'xchg {nbytes} {k}')
-        err = match_fixed(model, lines, nx[0], 1)
+        err = match_fixed(model, lines, nx[0], next(i for i, x in enumerate(model) if x.startswith('xchg ')))
         if err:
             return err
-        after = lines[nx[0] - 1 + len(model)] if nx[0] - 1 + len(model) < len(lines) else ''
+        end = nx[0] - next(i for i, x in enumerate(model) if x.startswith('xchg ')) + len(model)
+        after = lines[end] if end < len(lines) else ''
         if len(model) == 2 and re.match(r'mov[sz][bw]l %a[lx], %eax', after):
             return f'unexpected extension after a {nbytes}-byte xchg: {after}'
         return None
@@ -651,10 +662,12 @@ def build_run(ctx, text, name, timeout_s):
     rc, o, e = sh(['timeout', '-s', 'KILL', str(timeout_s), path + '.exe'], timeout=timeout_s + 30)
     return ('run', rc, o, e)
 
-def stress(ctx, corr):
+def stress(ctx, corr, plan=None):
     rng = ctx.rng
     iters = 100000
-    if ctx.thorough:
+    if plan is not None:
+        pass
+    elif ctx.thorough:
         combos = [(t, s) for t in TY for s in ('static', 'auto', 'heap', 'member')]
         nts = [2, 3, 4, 8, 16]
         plan = [(t, s, nts[(i + j) % len(nts)]) for i, (t, s) in enumerate(combos) for j in range(2)]
@@ -861,27 +874,40 @@ def correspond(ctx, corr):
                  'forced-failure cases (ping-pong).')
     corpus(ctx, corr)
     tie(ctx, corr)
-    if corr.disagreements:
-        return
     opsem(ctx, corr)
     pingpong(ctx, corr)
     stress(ctx, corr)
 
 def search(ctx, broken, corr):
-    """tie or proof broken without a violation so far: hunt for a lost update / wrong result with heavier stress"""
+    """tie or proof broken and the standard run saw no violation: stress the types whose sequences changed (all widths if unknown)
+    under 16, 4 and 2 threads on every storage class, and force compare-exchange failures many more times"""
+    tags = []
+    for b in broken:
+        w = b.get('what')
+        fn = w.get('function', '') if isinstance(w, dict) else ''
+        m = re.match(r'[fm]_(\w\w)_', fn)
+        if m and m.group(1) in TY and m.group(1) not in tags:
+            tags.append(m.group(1))
+    if not tags:
+        tags = ['uc', 'sh', 'in', 'ul', 'db']
     c2 = Corr()
-    ctx_th = ctx.thorough
+    th = ctx.thorough
     try:
         ctx.thorough = True
-        corpus(ctx, c2)
-        if not c2.violations:
-            pingpong(ctx, c2)
-        if not c2.violations:
-            stress(ctx, c2)
+        pingpong(ctx, c2)
     finally:
-        ctx.thorough = ctx_th
+        ctx.thorough = th
     if c2.violations:
         return c2.violations[0]
+    t0 = time.time()
+    for nt in (16, 4, 2):
+        for st in ('static', 'heap', 'member', 'auto'):
+            for tag in tags[:5]:
+                if time.time() - t0 > 420:
+                    return None
+                stress(ctx, c2, plan=[(tag, st, nt)])
+                if c2.violations:
+                    return c2.violations[0]
     return None
 
 def replay(ctx, corr, path):
